@@ -153,6 +153,14 @@ func c13(c *Ctx) {
 			} else {
 				rc.Envs = failEnvs(c, 8)
 			}
+			// renders of very different sizes share the pool: one environment makes every buffer grow large
+			big := c.genEnv(99)
+			big.S0 = strings.Repeat("0123456789abcdef", 6000) // 96 KB
+			big.Xs = nil
+			for k := 0; k < 300; k++ {
+				big.Xs = append(big.Xs, "row")
+			}
+			rc.Envs = append(rc.Envs, big)
 			for _, t := range f.Templates {
 				rc.Names = append(rc.Names, t.Name)
 			}
